@@ -863,7 +863,11 @@ impl Inner {
                     // have been sent before our RST_STREAM arrived, which
                     // has to be handled (RFC 9113 section 6.6). Refuse the
                     // promised stream instead of failing the connection.
-                    Err(_) if stream.state.is_local_error() => {
+                    Err(_)
+                        if stream.state.is_local_error()
+                            && !self.counts.peer().is_server()
+                            && promised_id.is_server_initiated() =>
+                    {
                         return Err(Error::library_reset(promised_id, Reason::REFUSED_STREAM));
                     }
                     Err(e) => return Err(e),
